@@ -243,5 +243,6 @@ func secs(d string) int {
 // GenStyle draws a formatting style.
 func GenStyle(t *rapid.T, label string) Style {
 	return Style{Indent: rapid.SampledFrom([]int{2, 4}).Draw(t, label+"-indent"), Quote: rapid.IntRange(0, 2).Draw(t, label+"-quote"),
-		Shuffle: int64(rapid.IntRange(0, 1000).Draw(t, label+"-shuffle")), Comments: rapid.Bool().Draw(t, label+"-comments"), FlowLists: rapid.Bool().Draw(t, label+"-flow")}
+		Shuffle: int64(rapid.IntRange(0, 1000).Draw(t, label+"-shuffle")), Comments: rapid.Bool().Draw(t, label+"-comments"), FlowLists: rapid.Bool().Draw(t, label+"-flow"),
+		DocIndent: rapid.SampledFrom([]int{0, 0, 0, 2}).Draw(t, label+"-docIndent"), Edges: rapid.IntRange(0, 3).Draw(t, label+"-edges") == 0}
 }
